@@ -23,6 +23,13 @@ proof fn lemma_header_signatures()
 impl DateTime {
 //@use dt_timepart
 //@use dt_datepart
+//@use dt_from_date_and_time
+//@use dt_year
+//@use dt_month
+//@use dt_day
+//@use dt_hour
+//@use dt_minute
+//@use dt_second
 }
 //@impl src/compression.rs | impl CompressionMethod
 impl CompressionMethod {
